@@ -202,10 +202,25 @@ def cdIter (netPT : Int → P → σ → σ) (props0 : Int → P) (σ0 : σ) : N
 /-- `(t, field)` arguments of the user's Hamiltonian in `propagators(step, field, derivative)` of a
     `TimeDependentSystemWithField`, first and second half step -/
 def hamArgs (cast : Rat → K) (start dt : Rat) (step : Int) (a d : K) : List (Rat × K) :=
-  [(tdsf_sample1 start dt step,
+  [(tdsf_ham_time (tdsf_sample1_t0 start dt step) (tdsf_sample1 start dt step),
       tdsf_lin_field a d (cast (tdsf_lin_delta (tdsf_sample1_t0 start dt step) (tdsf_sample1 start dt step)))),
-   (tdsf_sample2 start dt step,
+   (tdsf_ham_time (tdsf_sample2_t0 start dt step) (tdsf_sample2 start dt step),
       tdsf_lin_field a d (cast (tdsf_lin_delta (tdsf_sample2_t0 start dt step) (tdsf_sample2 start dt step))))]
+
+/-- times handed to the user's Lindblad rates and Lindblad operators in the same two Liouvillian
+    evaluations: `(time of gamma(·), time of l_op(·))`, first and second half step -/
+def dissArgs (start dt : Rat) (step : Int) : List (Rat × Rat) :=
+  [(tdsf_gamma_time (tdsf_sample1_t0 start dt step) (tdsf_sample1 start dt step),
+    tdsf_lop_time (tdsf_sample1_t0 start dt step) (tdsf_sample1 start dt step)),
+   (tdsf_gamma_time (tdsf_sample2_t0 start dt step) (tdsf_sample2 start dt step),
+    tdsf_lop_time (tdsf_sample2_t0 start dt step) (tdsf_sample2 start dt step))]
+
+/-- the same for a plain `TimeDependentSystem` (Hamiltonian, rate, operator times) -/
+def plainArgs (start dt : Rat) (step : Int) : List (Rat × Rat × Rat) :=
+  [(tds_ham_time (tds_sample1 start dt step), tds_gamma_time (tds_sample1 start dt step),
+    tds_lop_time (tds_sample1 start dt step)),
+   (tds_ham_time (tds_sample2 start dt step), tds_gamma_time (tds_sample2 start dt step),
+    tds_lop_time (tds_sample2 start dt step))]
 
 /-! ### statement order -/
 
